@@ -365,6 +365,57 @@ fn gen_pending_task_program(rng: &mut Rng) -> (String, Expect, &'static str) {
     (s, exp, class)
 }
 
+/// the final expression statement is FOLLOWED by declaration items (fn / struct / enum / #host fn, all used
+/// earlier in the file): the value of that statement is still the program's result
+fn gen_trailing_decl_program(rng: &mut Rng) -> (String, Expect, &'static str) {
+    let a = rng.range(-40, 40);
+    let b = rng.range(1, 9);
+    let mut s = String::new();
+    let mut out = String::new();
+    let mut calls: Vec<String> = vec![];
+    // body: uses helper / Pt / Sh / h1 / h2, which are declared after the last statement
+    s.push_str(&format!("let base = helper({a})\nlet p = Pt(base, {b})\nlet sh = Sh.sq({b})\n"));
+    let base = a * 2 + 1;
+    if rng.chance(1, 2) {
+        s.push_str("println(p.x + p.y)\n");
+        out.push_str(&format!("{}\n", base + b));
+    }
+    let area = b * b;
+    let (last, value, class): (String, String, &'static str) = match rng.below(6) {
+        0 => ("base + p.y".to_string(), format!("int:{}", base + b), "trailing-decl:plain-int"),
+        1 => ("area(sh) * 2 - base".to_string(), format!("int:{}", area * 2 - base), "trailing-decl:fn-call"),
+        2 => {
+            calls.push(format!("h1({base})"));
+            ("h1(base)".to_string(), format!("int:{}", f_h1(base)), "trailing-decl:host-call")
+        }
+        3 => {
+            calls.push(format!("h2({b},{})", hex("zz".as_bytes())));
+            (format!("h2({b}, \"zz\")"), format!("str:{}", hex(f_h2(b, "zz").as_bytes())), "trailing-decl:host-call-string")
+        }
+        4 => ("p.x < p.y".to_string(), format!("bool:{}", base < b), "trailing-decl:bool"),
+        _ => ("\"r=\" .. base".to_string(), format!("str:{}", hex(format!("r={base}").as_bytes())), "trailing-decl:string"),
+    };
+    s.push_str(&last);
+    s.push('\n');
+    // one or more declaration items after the final expression statement, in random order
+    let mut decls = vec![
+        "fn helper(n: int) -> int {\n  n * 2 + 1\n}\n".to_string(),
+        "type Pt = {\n  x: int\n  y: int\n}\n".to_string(),
+        "type Sh = sq(int) | dot\n".to_string(),
+        "fn area(s: Sh) -> int {\n  match s {\n    .sq(n) -> n * n\n    .dot -> 0\n  }\n}\n".to_string(),
+        HOST_DECLS.to_string(),
+    ];
+    // keep at least one after the statement; the others go in front
+    let n_after = rng.range(1, decls.len() as i64) as usize;
+    for i in (1..decls.len()).rev() {
+        let j = rng.below(i as u64 + 1) as usize;
+        decls.swap(i, j);
+    }
+    let (after, before) = decls.split_at(n_after);
+    let src = format!("{}{}{}", before.concat(), s, after.concat());
+    (src, Expect { out: Some(out), value: Some(value), error: None, host_calls: Some(calls) }, class)
+}
+
 fn random_schedule(rng: &mut Rng) -> Schedule {
     match rng.below(6) {
         0 => Schedule::constant(1),
@@ -416,6 +467,11 @@ fn main() {
         }
     }
     let mut jobs: Vec<Job> = vec![];
+    for _ in 0..n {
+        let (src, expect, class) = gen_trailing_decl_program(&mut ctx.rng);
+        let sched = random_schedule(&mut ctx.rng);
+        jobs.push(Job { src, class, sched, expect, model_host: None });
+    }
     for i in 0..(3 * n + n / 2 + n) {
         if i >= 3 * n + n / 2 {
             let (src, expect, class) = gen_pending_task_program(&mut ctx.rng);
